@@ -266,6 +266,55 @@ def h_program(e, cfg):
     e.oblige_eq("program:final-param", c.bias, cur, program=" ".join(prog))
 
 
+def h_trainer_update(e, cfg):
+    """CellTrainer.update(): every updater of the registered cells is applied exactly once
+    (also when two cells share one connection), with parts contributed by two sources."""
+    import inferno.neural as neural
+    import inferno.learn as learn
+    from harness.common import scripted_neuron_class
+    syn = neural.DeltaCurrent.partialconstructor(1.0)
+    Scripted = scripted_neuron_class()
+    e.tag(layer=cfg["layer"])
+    conns = {}
+    if cfg["layer"] == "shared-connection":
+        ca = neural.LinearDense((2,), (2,), 1.0, synapse=syn, batch_size=1)
+        layer = neural.Biclique([("a", ca)], [("x", Scripted((2,), 1.0, 1)), ("y", Scripted((2,), 1.0, 1))], "sum")
+        cells = {"A": layer.get_cell("a", "x"), "B": layer.get_cell("a", "y")}
+        conns = {"a": ca}
+    elif cfg["layer"] == "shared-neuron":
+        ca = neural.LinearDense((2,), (2,), 1.0, synapse=syn, batch_size=1)
+        cb = neural.LinearDense((2,), (2,), 1.0, synapse=syn, batch_size=1)
+        layer = neural.Biclique([("a", ca), ("b", cb)], [("x", Scripted((2,), 1.0, 1))], "sum")
+        cells = {"A": layer.get_cell("a", "x"), "B": layer.get_cell("b", "x")}
+        conns = {"a": ca, "b": cb}
+    else:
+        ca = neural.LinearDense((2,), (2,), 1.0, synapse=syn, batch_size=1)
+        layer = neural.Serial(ca, Scripted((2,), 1.0, 1))
+        cells = {"A": layer.cell}
+        conns = {"a": ca}
+    for c in conns.values():
+        c.updater = c.defaultupdater()
+    tr = learn.STDP(1.0, -0.5, 20.0, 15.0)
+    for nm, cell in cells.items():
+        tr.register_cell(nm, cell)
+    expect = {}
+    for nm, c in conns.items():
+        w0 = e.sym((2, 2), torch.float32, f"W{nm}", lo=-2, hi=2)
+        c.weight = w0
+        cur = e.read(w0).copy()
+        for src in range(cfg["sources"]):
+            p, n = e.sym((2, 2), torch.float32, f"p{nm}{src}", lo=0, hi=2), e.sym((2, 2), torch.float32, f"n{nm}{src}", lo=0, hi=2)
+            c.updater.weight = (p, n)
+            pa, na = e.read(p), e.read(n)
+            for pos in np.ndindex(2, 2):
+                cur[pos] = T.sub(T.add(cur[pos], pa[pos]), na[pos])
+        expect[nm] = cur
+    tr.update()
+    for nm, c in conns.items():
+        e.oblige_eq("trainer-update:applied-once", c.weight, expect[nm], split=True, connection=nm)
+    # (CellTrainer.update() is documented to apply, not to clear: nothing is demanded of a second call)
+
+
 def checks(tier):
     th = tier == "thorough"
     ap = []
@@ -285,12 +334,14 @@ def checks(tier):
                 inv.append(dict(family=fam, mode=mode, power=k))
     pr = [dict(len=(5 if th else 4), first=i) for i in range(8)]
     return [Check("apply", h_apply, ap, timeout_s=600), Check("invariant", h_invariant, inv, opts={"query_timeout_ms": 120000}, timeout_s=900),
-            Check("programs", h_program, pr, opts={"max_paths": 100000}, timeout_s=3000)]
+            Check("programs", h_program, pr, opts={"max_paths": 100000}, timeout_s=3000),
+            Check("trainer_update", h_trainer_update, [dict(layer=l, sources=n) for l in ("serial", "shared-neuron", "shared-connection") for n in (1, 2)], timeout_s=600)]
 
 
 BOUNDS = {
     "quick": {"parameter": "2x2 symbolic weight", "parts": "0-3 potentiating x 0-3 depressing, interleaved", "reductions": ["default", "sum", "mean", "amax", "custom at construction"],
               "bounding": "none / upper / lower / both halves / full x {power 1-3, scaled power 1-2, multiplicative, scaled multiplicative, sharp}; limits (-1, 2)",
+              "trainer_update": "CellTrainer.update() on Serial / Biclique with two cells sharing the neuron group / sharing the connection; 1-2 contributions per updater",
               "programs": "all 4-operation programs over {pos, neg, both, read, update, update(clear=False), updatesome, clear}"},
     "thorough": {"orders": "forward / reversed / interleaved", "programs": "all 5-operation programs"},
 }
